@@ -147,3 +147,38 @@ func cover(label string)              {}
 func shape(label string)              {}
 func observe(tag string, v interface{}) {}
 func symbolicMode() bool              { return false }
+
+// Non-forking boolean connectives: under symgo these build one solver term instead of
+// splitting the path the way Go's && and || do.
+func band(a, b bool) bool { return a && b }
+func bor(a, b bool) bool  { return a || b }
+func bnot(a bool) bool    { return !a }
+func bimp(a, b bool) bool { return !a || b }
+
+// coverIf marks the witness as reached when cond is satisfiable on this path (no fork).
+func coverIf(cond bool, label string) {}
+
+// ifStr / ifInt: term-level conditional without forking.
+func ifStr(c bool, a, b string) string {
+	if c {
+		return a
+	}
+	return b
+}
+func ifInt(c bool, a, b int64) int64 {
+	if c {
+		return a
+	}
+	return b
+}
+
+// trimDash returns k without one leading '-' (no fork under symgo).
+func trimDash(k string) string {
+	if len(k) > 0 && k[0] == '-' {
+		return k[1:]
+	}
+	return k
+}
+
+// hasDash reports whether k starts with '-'.
+func hasDash(k string) bool { return len(k) > 0 && k[0] == '-' }
